@@ -21,7 +21,7 @@ LEVEL_TEXT = ('PARTIAL. Decided statically, for every shipped family and all val
               'table-driven optima over every row of the shipped tables; table shapes match the NUM_* constants and '
               'the index expressions used; a shipped Calculate returns a point-independent penalty only strictly '
               'outside a bound (closed declared box); nothing outside the problem classes writes into bound vectors, '
-              'names or the known optimum. Metadata objects are allocated per construction; the boundary members of a table-driven family are constructed as themselves; a method that re-assigns an attribute derived from a constructor argument re-derives everything derived from that argument (no such method on this tree). NOT decided: optimum-in-box for generated GKLS points, and the agreement '
+              'names or the known optimum. Metadata objects are allocated per construction; the boundary members of a table-driven family are constructed as themselves; a method that re-assigns an attribute derived from a constructor argument re-derives everything derived from that argument (no such method on this tree); the value Calculate stores does not read what the holder held before. NOT decided: optimum-in-box for generated GKLS points, and the agreement '
               'of the min/max/Lipschitz tables with the functions (numerical).')
 EXPLANATION = ('Path summaries of each constructor are replayed into abstract arrays; lengths are compared as '
                'expressions in the constructor argument, fills as exact constants; literal tables are read from the '
@@ -876,6 +876,13 @@ def check(ctx: Ctx):
         r18_8(ctx)
     if C.want(ctx, 'R18.9'):
         r18_9(ctx)
+    if C.want(ctx, 'R15.3'):
+        ctx.rule('R15.3', 'the functions the published tables describe are functions of the point alone: every path of '
+                          'Calculate stores a value that does not read what the holder held before (= R15.3), re-run '
+                          'here - a table row cannot agree with a function whose value depends on the holder it is '
+                          'evaluated into')
+        from . import c15
+        c15.r15_3(ctx)
     if C.want(ctx, 'R18.7'):
         r18_7(ctx)
     if C.want(ctx, 'R18.6'):
